@@ -195,6 +195,11 @@ func (b *Buffer) ServeHTTP(w http.ResponseWriter, req *http.Request) {
 			return
 		}
 
+		if bw.code == 0 {
+			// per contract standard lib sets this to http.StatusOK if not set by the handler
+			bw.code = http.StatusOK
+		}
+
 		var reader multibuf.MultiReader
 		if bw.expectBody(outReq) {
 			rdr, err := writer.Reader()
